@@ -273,7 +273,7 @@ Lemma spec_limit_model p init limit :
 Proof.
   intros r. simpl. destruct (limit_fault p limit) as [x|] eqn:E; auto.
   destruct (fault_not_published p x (limit_fault_hits _ _ _ E)) as [R [N S]].
-  unfold r. rewrite R. simpl.
+  unfold r.
   apply andb_true_iff. split.
   - unfold no_publish. rewrite forallb_forall in *. intros o Ho. specialize (N o Ho).
     destruct o as [f|f off len|f|f1 f2| |f| ]; auto. simpl in N. discriminate.
